@@ -44,7 +44,7 @@ def alphabet(tier):
     for k in ("con", "sto", "st"):
         for gi in (0, 2):
             ops.append(("A", k, gi))
-    ops += [("SP", 0), ("SP", 1), ("SPLIT", 0), ("SPLIT", 1), ("OPT",), ("JSON",), ("FLAT", 0), ("FLAT", 1), ("CS", 0), ("CS", 1), ("ARR", 0), ("ARR", 2), ("FIX", 0), ("FIX", 1), ("FIX", 3), ("SPLITDF", 0), ("SPLITDF", 2), ("AP", "con"), ("AP", "sto")]
+    ops += [("SP", 0), ("SP", 1), ("SPLIT", 0), ("SPLIT", 1), ("OPT",), ("JSON",), ("FLAT", 0), ("FLAT", 1), ("CS", 0), ("CS", 1), ("ARR", 0), ("ARR", 2), ("FIX", 0), ("FIX", 1), ("FIX", 3), ("FIXA", 0), ("FIXA", 1), ("FIXA", 3), ("SPLITDF", 0), ("SPLITDF", 2), ("AP", "con"), ("AP", "sto")]
     if tier == "thorough":
         ops += [("SLP", 0), ("SLP", 1)]
     return ops
@@ -97,6 +97,8 @@ class World:
         self.flat = Portfolio([self.fm, self.isto, self.itr])
         # a user-supplied dictionary fixing the first steps to given values (date + full-length array), reused between calls
         self.fw = dict(I=T("2021-01-02 06:00"), x=np.round(np.linspace(-1.0, 1.0, 16), 3))
+        # ... and one giving the window as an index array, with values for more variables than any of the problems has
+        self.fwa = dict(I=np.array([0, 1]), x=np.round(np.linspace(-1.0, 1.0, 64), 3))
         # (fa has an own freq equal to the step of the 6h grids and coarser than the hourly grid; fb is periodic)
         self.pf_fix = Portfolio([SimpleContract(name="fa", nodes=n1, price="p", min_cap=-5.0, max_cap=5.0, freq="6h"),
                                  SimpleContract(name="fb", nodes=n1, price="q", min_cap=-5.0, max_cap=5.0, periodicity="12h")])
@@ -123,7 +125,7 @@ class World:
 
     def objects(self):
         return dict(con=self.con, sto=self.sto, tr=self.tr, mk2=self.mk2, isto=self.isto, itr=self.itr, st=self.st, pf=self.pf,
-                    fm=self.fm, flat=self.flat, capd=self.capd, taked=self.taked, P=self.P, ob=self.ob, late=self.late, pl=self.pl, plf=self.plf, gas=self.gas, cap_arr=self.cap_arr, cap4=self.cap4, arr4=self.arr4, pf_arr=self.pf_arr, xtr=self.xtr, xtake=self.xtake, orders=self.orders, orders_df=self.orders_df, fw=self.fw, pf_fix=self.pf_fix, Pdf4=self.Pdf4,
+                    fm=self.fm, flat=self.flat, capd=self.capd, taked=self.taked, P=self.P, ob=self.ob, late=self.late, pl=self.pl, plf=self.plf, gas=self.gas, cap_arr=self.cap_arr, cap4=self.cap4, arr4=self.arr4, pf_arr=self.pf_arr, xtr=self.xtr, xtake=self.xtake, orders=self.orders, orders_df=self.orders_df, fw=self.fw, fwa=self.fwa, pf_fix=self.pf_fix, Pdf4=self.Pdf4,
                     ctx=(self.cur, self.last, None if self.last_op is None else "op", sorted(self.acur.items())))
 
     def key(self):
@@ -206,6 +208,10 @@ class World:
         if kind == "FIX":
             _, gi = op
             prob = self.pf_fix.setup_optim_problem(self.P[0][gi], self.grids[gi], fix_time_window=self.fw)
+            return ("problem", H.problem_hash(prob))
+        if kind == "FIXA":
+            _, gi = op
+            prob = self.pf_fix.setup_optim_problem(self.P[0][gi], self.grids[gi], fix_time_window=self.fwa)
             return ("problem", H.problem_hash(prob))
         if kind == "FLAT":
             _, gi = op
